@@ -34,9 +34,10 @@ VARIABLES tid, i,
           restoredOlder, \* an older explicit step was restored into the same directory
           rfrom,       \* iteration the live solver was restored from (-1: built fresh)
           savedp,      \* set of <<step, digest of the policy field>> handed to save() so far
+          ulabels,     \* set of <<label, iteration>>: saves the USER issued through save(label) with a label of their own
           verdict
 vars == <<tid, i, iter, incall, due, onDisk, durable, lastCall, prevCall, dir, freq, keep, isasync,
-          crashed, expectSave, restoredOlder, rfrom, savedp, verdict>>
+          crashed, expectSave, restoredOlder, rfrom, savedp, ulabels, verdict>>
 
 T  == Traces[tid]
 Ev == T.ev[i]
@@ -51,14 +52,14 @@ Init ==
   /\ due = <<{}, {}>> /\ onDisk = <<{}, {}>>
   /\ durable = 0 /\ lastCall = 0 /\ prevCall = 0 /\ dir = 1
   /\ freq = Traces[tid].freq /\ keep = Traces[tid].keep /\ isasync = Traces[tid].isasync
-  /\ crashed = FALSE /\ expectSave = FALSE /\ restoredOlder = FALSE /\ rfrom = -1 /\ savedp = {}
+  /\ crashed = FALSE /\ expectSave = FALSE /\ restoredOlder = FALSE /\ rfrom = -1 /\ savedp = {} /\ ulabels = {}
   /\ verdict = "running"
 
 Reject(prop, clause) ==
   /\ verdict' = "rejected"
   /\ PrintT(<<"REJECT", tid, i, prop, clause>>)
   /\ UNCHANGED <<tid, i, iter, incall, due, onDisk, durable, lastCall, prevCall, dir, freq, keep,
-                 isasync, crashed, expectSave, restoredOlder, rfrom, savedp>>
+                 isasync, crashed, expectSave, restoredOlder, rfrom, savedp, ulabels>>
 
 Running == verdict = "running" /\ i <= Len(T.ev)
 Step == i' = i + 1 /\ UNCHANGED <<tid, verdict>>
@@ -77,14 +78,14 @@ New ==
           /\ dir' = Ev.dir                     \* the directory this solver saves to (as the solver itself reports it)
           /\ durable' = IF Ev.dir = dir THEN durable ELSE 0
           /\ Step
-          /\ UNCHANGED <<due, onDisk, freq, keep, isasync, crashed, restoredOlder, rfrom, savedp>>
+          /\ UNCHANGED <<due, onDisk, freq, keep, isasync, crashed, restoredOlder, rfrom, savedp, ulabels>>
 
 Begin ==
   /\ Running /\ Ev.e = "begin"
   /\ IF iter = -1 \/ incall THEN Reject("C09", "begin: no live solver / nested call")
      ELSE IF Ev.iter # iter THEN Reject("C09", "begin: iteration counter changed outside solve()")
      ELSE /\ incall' = TRUE /\ expectSave' = FALSE /\ Step
-          /\ UNCHANGED <<iter, due, onDisk, durable, lastCall, prevCall, dir, freq, keep, isasync, crashed, restoredOlder, rfrom, savedp>>
+          /\ UNCHANGED <<iter, due, onDisk, durable, lastCall, prevCall, dir, freq, keep, isasync, crashed, restoredOlder, rfrom, savedp, ulabels>>
 
 (* C09: enabling checkpointing never changes a computed result - every sweep of every          *)
 (* generation produces exactly the reference iterate its counter names                          *)
@@ -105,7 +106,7 @@ Sweep ==
      ELSE /\ iter' = iter + 1
           /\ expectSave' = (freq > 0 /\ ~Ev.conv /\ (iter + 1) % freq = 0)
           /\ Step
-          /\ UNCHANGED <<incall, due, onDisk, durable, lastCall, prevCall, dir, freq, keep, isasync, crashed, restoredOlder, rfrom, savedp>>
+          /\ UNCHANGED <<incall, due, onDisk, durable, lastCall, prevCall, dir, freq, keep, isasync, crashed, restoredOlder, rfrom, savedp, ulabels>>
 
 (* C11/C12: the label of a save is the iteration just completed and the state handed over is    *)
 (* exactly the state of that iteration                                                          *)
@@ -124,7 +125,20 @@ SaveCall ==
           \* the first save of a step wins (a repeated save of the same step is refused by the manager)
           /\ savedp' = IF \E x \in savedp : x[1] = Ev.step THEN savedp ELSE savedp \cup {<<Ev.step, Ev.pdig>>}
           /\ Step
-          /\ UNCHANGED <<iter, incall, onDisk, durable, dir, freq, keep, isasync, crashed, restoredOlder, rfrom>>
+          /\ UNCHANGED <<iter, incall, onDisk, durable, dir, freq, keep, isasync, crashed, restoredOlder, rfrom, ulabels>>
+
+(* the user calls save(label) with a label of their own choosing (a milestone number): the label names the checkpoint, *)
+(* the state inside is the state the solver holds - restoring it must give back THAT iteration                        *)
+UserSave ==
+  /\ Running /\ Ev.e = "user_save"
+  /\ IF iter < 0 \/ Ev.iter # iter \/ ~FieldsAre(iter)
+       THEN Reject("C11", "save: the state handed to the checkpoint is not the state the solver holds")
+     ELSE /\ due' = [due EXCEPT ![dir] = @ \cup {Ev.step}]
+          /\ ulabels' = ulabels \cup {<<Ev.step, iter>>}
+          /\ savedp' = IF \E x \in savedp : x[1] = Ev.step THEN savedp ELSE savedp \cup {<<Ev.step, Ev.pdig>>}
+          /\ Step
+          /\ UNCHANGED <<iter, incall, onDisk, durable, lastCall, prevCall, dir, freq, keep, isasync, crashed, expectSave,
+                         restoredOlder, rfrom>>
 
 SaveReturn ==
   /\ Running /\ Ev.e = "save_return"
@@ -134,7 +148,7 @@ SaveReturn ==
                 ELSE IF ~isasync THEN (IF Ev.step > durable THEN Ev.step ELSE durable)
                 ELSE (IF prevCall > durable /\ prevCall < Ev.step THEN prevCall ELSE durable)
   /\ Step
-  /\ UNCHANGED <<iter, incall, due, onDisk, lastCall, prevCall, dir, freq, keep, isasync, crashed, expectSave, restoredOlder, rfrom, savedp>>
+  /\ UNCHANGED <<iter, incall, due, onDisk, lastCall, prevCall, dir, freq, keep, isasync, crashed, expectSave, restoredOlder, rfrom, savedp, ulabels>>
 
 End ==
   /\ Running /\ Ev.e = "end"
@@ -144,13 +158,13 @@ End ==
      ELSE IF Ev.final /\ Ev.iter = T.refconv /\ Ev.ptag # T.refconv
        THEN Reject("C09", "end: final policy differs from the uninterrupted run")
      ELSE /\ incall' = FALSE /\ expectSave' = FALSE /\ Step
-          /\ UNCHANGED <<iter, due, onDisk, durable, lastCall, prevCall, dir, freq, keep, isasync, crashed, restoredOlder, rfrom, savedp>>
+          /\ UNCHANGED <<iter, due, onDisk, durable, lastCall, prevCall, dir, freq, keep, isasync, crashed, restoredOlder, rfrom, savedp, ulabels>>
 
 Waited ==
   /\ Running /\ Ev.e = "waited"
   /\ durable' = IF lastCall > durable /\ ~restoredOlder THEN lastCall ELSE durable
   /\ Step
-  /\ UNCHANGED <<iter, incall, due, onDisk, lastCall, prevCall, dir, freq, keep, isasync, crashed, expectSave, restoredOlder, rfrom, savedp>>
+  /\ UNCHANGED <<iter, incall, due, onDisk, lastCall, prevCall, dir, freq, keep, isasync, crashed, expectSave, restoredOlder, rfrom, savedp, ulabels>>
 
 (* directory listing.  quiescent listings (after wait_until_finished, no kill) are held to the  *)
 (* cadence/retention rule; post-mortem listings to durability and to "nothing but save points". *)
@@ -183,7 +197,7 @@ Listing ==
           \* after a kill, saves that never committed are forgotten: the directory is the truth
           /\ due' = IF Ev.postmortem THEN [due EXCEPT ![d] = fin] ELSE due
           /\ Step
-          /\ UNCHANGED <<iter, incall, durable, lastCall, prevCall, dir, freq, keep, isasync, crashed, expectSave, restoredOlder, rfrom, savedp>>
+          /\ UNCHANGED <<iter, incall, durable, lastCall, prevCall, dir, freq, keep, isasync, crashed, expectSave, restoredOlder, rfrom, savedp, ulabels>>
 
 (* the driver copied directory Ev.src to directory Ev.dir (a backup taken at rest): the copy holds what the   *)
 (* source held; restoring from it must read IT, whatever the configuration file inside says about directories *)
@@ -192,20 +206,22 @@ Copy ==
   /\ onDisk' = [onDisk EXCEPT ![Ev.dir] = onDisk[Ev.src]]
   /\ due' = [due EXCEPT ![Ev.dir] = onDisk[Ev.src]]
   /\ Step
-  /\ UNCHANGED <<iter, incall, durable, lastCall, prevCall, dir, freq, keep, isasync, crashed, expectSave, restoredOlder, rfrom, savedp>>
+  /\ UNCHANGED <<iter, incall, durable, lastCall, prevCall, dir, freq, keep, isasync, crashed, expectSave, restoredOlder, rfrom, savedp, ulabels>>
 
 Crash ==      \* the process generation ended (killed, or simply exited)
   /\ Running /\ Ev.e = "crash"
   /\ iter' = -1 /\ incall' = FALSE /\ crashed' = Ev.killed /\ lastCall' = 0 /\ prevCall' = 0
   /\ expectSave' = FALSE
   /\ Step
-  /\ UNCHANGED <<due, onDisk, durable, dir, freq, keep, isasync, restoredOlder, rfrom, savedp>>
+  /\ UNCHANGED <<due, onDisk, durable, dir, freq, keep, isasync, restoredOlder, rfrom, savedp, ulabels>>
 
 (* C10 / C11: restore outcome *)
 RestoreOK ==
   /\ Running /\ Ev.e = "restore_ok"
   /\ LET src == onDisk[Ev.src]
          chosen == IF Ev.req > 0 THEN Ev.req ELSE (IF src = {} THEN 0 ELSE SetMax(src))
+         \* the iteration the chosen checkpoint carries: its label, unless the user labelled it
+         content == IF \E x \in ulabels : x[1] = chosen THEN (CHOOSE x \in ulabels : x[1] = chosen)[2] ELSE chosen
      IN
      IF src = {} THEN Reject("C11", "restore: returned a solver although no checkpoint had been completed")
      ELSE IF ~T.fullconfig /\ Ev.route = "restore" THEN Reject("C10", "restore: succeeded without a configuration file")
@@ -213,8 +229,8 @@ RestoreOK ==
      \* listing was taken: then any save point at or beyond the listed maximum is the latest completed step
      ELSE IF Ev.inflight /\ Ev.req = 0 /\ ~(Ev.iter >= chosen /\ Ev.iter \in (src \cup due[Ev.src]))
        THEN Reject("C10", "restore: the restored iteration is not a completed save point at or beyond the listed latest step")
-     ELSE IF ~(Ev.inflight /\ Ev.req = 0) /\ Ev.iter # chosen
-       THEN Reject("C10", "restore: the restored iteration is not the requested / latest completed step")
+     ELSE IF ~(Ev.inflight /\ Ev.req = 0) /\ Ev.iter # content
+       THEN Reject("C10", "restore: the restored iteration is not the one the requested / latest completed checkpoint carries")
      ELSE IF Ev.vtag = Bad \/ Ev.gtag = Bad \/ Ev.htag = Bad
        THEN Reject("C11", "restore: restored arrays match no iterate of the run (torn or mixed checkpoint)")
      ELSE IF ~FieldsAre(Ev.iter)
@@ -239,21 +255,21 @@ RestoreOK ==
           /\ (\E x \in savedp : x[1] = Ev.iter /\ x[2] # Ev.pdig /\ Ev.pdig # "none") =>
                 PrintT(<<"DRIFT", tid, "C10 restore: the policy field differs from the one handed to save() at that step (another policy present)">>)
           /\ Step
-          /\ UNCHANGED <<onDisk, crashed, savedp>>
+          /\ UNCHANGED <<onDisk, crashed, savedp, ulabels>>
 
 RestoreFailed ==
   /\ Running /\ Ev.e = "restore_failed"
   /\ LET src == onDisk[Ev.src] IN
      IF Ev.route = "restore" /\ ~T.fullconfig
      THEN (IF Ev.exc # "FileNotFoundError" THEN Reject("C10", "restore without a configuration file must raise FileNotFoundError")
-           ELSE Step /\ iter' = -1 /\ UNCHANGED <<incall, due, onDisk, durable, lastCall, prevCall, dir, freq, keep, isasync, crashed, expectSave, restoredOlder, rfrom, savedp>>)
+           ELSE Step /\ iter' = -1 /\ UNCHANGED <<incall, due, onDisk, durable, lastCall, prevCall, dir, freq, keep, isasync, crashed, expectSave, restoredOlder, rfrom, savedp, ulabels>>)
      ELSE IF src = {}
      THEN (IF Ev.exc # "ValueError" THEN Reject("C10", "restore with no completed checkpoint must raise ValueError")
-           ELSE Step /\ iter' = -1 /\ UNCHANGED <<incall, due, onDisk, durable, lastCall, prevCall, dir, freq, keep, isasync, crashed, expectSave, restoredOlder, rfrom, savedp>>)
+           ELSE Step /\ iter' = -1 /\ UNCHANGED <<incall, due, onDisk, durable, lastCall, prevCall, dir, freq, keep, isasync, crashed, expectSave, restoredOlder, rfrom, savedp, ulabels>>)
      \* an explicit step that is absent, or that retention was already deleting when the process was
      \* killed (a half-deleted directory), may fail - it must never return data (see RestoreOK)
      ELSE IF Ev.req > 0 /\ (Ev.req \notin src \/ (T.hadcrash /\ Ev.req \notin Largest(keep, src)))
-     THEN Step /\ iter' = -1 /\ UNCHANGED <<incall, due, onDisk, durable, lastCall, prevCall, dir, freq, keep, isasync, crashed, expectSave, restoredOlder, rfrom, savedp>>
+     THEN Step /\ iter' = -1 /\ UNCHANGED <<incall, due, onDisk, durable, lastCall, prevCall, dir, freq, keep, isasync, crashed, expectSave, restoredOlder, rfrom, savedp, ulabels>>
      ELSE Reject("C11", "restore: failed although a completed checkpoint exists")
 
 SolveFailed ==
@@ -265,9 +281,9 @@ Accept ==
   /\ verdict' = "accepted"
   /\ PrintT(<<"ACCEPT", tid>>)
   /\ UNCHANGED <<tid, i, iter, incall, due, onDisk, durable, lastCall, prevCall, dir, freq, keep, isasync,
-                 crashed, expectSave, restoredOlder, rfrom, savedp>>
+                 crashed, expectSave, restoredOlder, rfrom, savedp, ulabels>>
 
-Next == New \/ Begin \/ Sweep \/ SaveCall \/ SaveReturn \/ End \/ Waited \/ Listing \/ Copy \/ Crash
+Next == New \/ Begin \/ Sweep \/ SaveCall \/ UserSave \/ SaveReturn \/ End \/ Waited \/ Listing \/ Copy \/ Crash
         \/ RestoreOK \/ RestoreFailed \/ SolveFailed \/ Accept
 Spec == Init /\ [][Next]_vars
 =============================================================================
